@@ -1,14 +1,74 @@
-(* C22 — theorems (statements only; proofs are in Witness.v, RG.v, Proofs.v). *)
+(* C22 — theorems (statements only; proofs: RG.v program logic, Sys.v system theorem, Prims.v/Proofs.v every
+   operation of Model.v is safe, Final.v assembly, Witness.v the same-host race).
+
+   System: any number of clients; client i acts for host (fst (nth i clients)) and runs its list of operations
+   (ClaimAffinity, ReleaseAffinity, ReleaseHostAffinities, AutoAssign, AssignIP, ReleaseIPs, ReleaseByHandle) one
+   after the other; [evs] is ANY schedule: each event lets one client perform its next datastore access, possibly
+   with an injected write conflict, or crashes it before/after the access (it then abandons the operation and
+   restarts with its next one).  [fx] selects the pinned (false) or repaired (true) claimAffineBlock: the theorems
+   hold for both.  Hypothesis NoDup (map fst clients): no two clients act for the same host CONCURRENTLY
+   (successive processes of one host = successive operations of one client, with crashes in between). *)
 From Coq Require Import List NArith Bool Arith.
 From Verif.Common Require Import Cas.
 From Verif.C19 Require Import Model.
-From Verif.C22 Require Import Model Witness.
+From Verif.C22 Require Import Model RG Sys Witness Final.
 Import ListNotations.
 Open Scope N_scope.
 
-(* FINDING.  When two processes act for the same host concurrently (the node itself and e.g. kube-controllers'
-   releaseUnusedBlocks, which calls ReleaseBlockAffinity with the node's affinity), the pinned code reaches a state
-   where two different hosts hold a CONFIRMED affinity for one block. *)
+(* At every point of every history a block is confirmed as affine to at most one host. *)
+Theorem c22_one_confirmed_owner : forall cf fx clients evs h1 h2 c,
+  NoDup (map fst clients) ->
+  aff_at (sy_store (sys_run cf fx (sys0 cf fx clients) evs)) h1 c = Some AConfirmed ->
+  aff_at (sy_store (sys_run cf fx (sys0 cf fx clients) evs)) h2 c = Some AConfirmed -> h1 = h2.
+Proof. exact one_confirmed_owner. Qed.
+Print Assumptions c22_one_confirmed_owner.
+
+(* A confirmed affinity (h, c) implies that block c exists and its recorded Affinity field is h. *)
+Theorem c22_block_affinity_matches_claim : forall cf fx clients evs h c,
+  NoDup (map fst clients) ->
+  aff_at (sy_store (sys_run cf fx (sys0 cf fx clients) evs)) h c = Some AConfirmed ->
+  exists b, blk_at (sy_store (sys_run cf fx (sys0 cf fx clients) evs)) c = Some b /\ bk_aff b = Some h.
+Proof. exact confirmed_matches_block. Qed.
+Print Assumptions c22_block_affinity_matches_claim.
+
+(* Every step of every schedule (step_spec, Final.v): a block whose Affinity field names a host is deleted only by
+   that host and only when it holds no allocation (a block naming nobody may be deleted by an address release);
+   the Affinity field only changes from "this host" to "none", by that host, keeping every allocation; a block is
+   created empty with the creating host in its Affinity field; nobody writes another host's affinity objects. *)
+Theorem c22_release_only_if_empty : forall cf fx clients evs ev,
+  NoDup (map fst clients) ->
+  let y := sys_run cf fx (sys0 cf fx clients) evs in
+  sy_store (sys_step cf fx y ev) = sy_store y \/
+  exists cl, nth_error (sy_clients y) (ev_client ev) = Some cl /\
+             step_spec (cl_host cl) (sy_store y) (sy_store (sys_step cf fx y ev)).
+Proof. exact every_step. Qed.
+Print Assumptions c22_release_only_if_empty.
+
+(* Pending is not ownership, part 1: in every environment made of other hosts' operations (rely = their
+   guarantee), with any conflicts, ClaimAffinity reports "claimed" only in a store where the host's affinity is
+   CONFIRMED and the block's Affinity field names the host.  (Part 2 is the third clause of step_spec: the block
+   create is the claim.) *)
+Theorem c22_pending_not_ownership : forall cf fx h c,
+  safeS h (G h) (compile22 cf fx h (OClaim c)) Ptop
+        (fun r s => match r with
+                    | ResClaim true _ _ => aff_at s h c = Some AConfirmed /\
+                                           exists b, blk_at s c = Some b /\ bk_aff b = Some h
+                    | _ => True end).
+Proof. exact claim_reports_confirmed. Qed.
+Print Assumptions c22_pending_not_ownership.
+
+(* Pending is not ownership, part 3: with StrictAffinity (affinity check on) the block functions used by AutoAssign's
+   affine phase and by AssignIP allocate only from a block whose Affinity field is the host, whatever affinity
+   objects exist. *)
+Theorem c22_strict_allocation_needs_block_affinity : forall b num x tag host b' ips a b'',
+  (blk_auto_assign b num x tag true host = Some (b', ips) -> bk_aff b = Some host /\ bk_aff b' = Some host) /\
+  (blk_assign b a x tag true host = inl b'' -> bk_aff b = Some host /\ bk_aff b'' = Some host).
+Proof. exact strict_allocation_needs_block_affinity. Qed.
+Print Assumptions c22_strict_allocation_needs_block_affinity.
+
+(* FINDING.  Without the hypothesis: when two processes act for the same host concurrently (the node itself and
+   e.g. kube-controllers' releaseUnusedBlocks, which calls ReleaseBlockAffinity with the node's affinity), the
+   pinned code reaches a state where two different hosts hold a CONFIRMED affinity for one block. *)
 Theorem c22_one_confirmed_owner_same_host_refuted :
   exists (cf : config) (clients : list (N * list op22)) (evs : list event) (h1 h2 c : N),
     let s := sy_store (sys_run cf false (sys0 cf false clients) evs) in
